@@ -93,6 +93,8 @@ def cases(group):
             tols = TOLS if (w is None or not full or sum(w) == 6) else TOLS[:1]
             for (rtol, atol) in tols:
                 yield dict(X=X, with_mean=flags[0], with_std=flags[1], column_wise=flags[2], w=w, rtol=rtol, atol=atol)
+            if w is None or not full or sum(w) in (5, 6):
+                yield dict(X=X, with_mean=flags[0], with_std=flags[1], column_wise=flags[2], w=w, rtol=0.0, atol=1e-12, used=True)
 
 
 def _wstats(X, w):
@@ -114,6 +116,11 @@ def check(case):
     wn, mean, var = _wstats(X, w)
     scaler = StandardFlexibleScaler(with_mean=wm, with_std=ws, column_wise=cw, rtol=rtol, atol=atol)
     try:
+        if case.get("used"):  # a USED scaler: fitted before on other data of the same shape, with the other weight form
+            try:
+                scaler.fit(X[::-1] * 1.5 + np.arange(m) + 3.0, sample_weight=np.arange(1.0, n + 1.0) if w is None else None)
+            except ValueError:
+                pass
         scaler.fit(X.copy(), sample_weight=None if w is None else np.array(w, float))
         rejected = False
     except ValueError:
